@@ -70,6 +70,17 @@ def register(reg, P):
     reg("A7", "vmap_in_axes_0_None/mul", functools.partial(P, jax.vmap(lambda x, y: x * y + 1.0, in_axes=(0, None)), [((2, 3), F32), ((3,), F32)]))
     reg("A7", "vmap_in_axes_None_0/where", functools.partial(P, jax.vmap(lambda x, y: jnp.where(x > y, x, y), in_axes=(None, 0)), [((3,), F32), ((2, 3), F32)]))
     reg("A7", "vmap_in_axes_1/matmul", functools.partial(P, jax.vmap(lambda x: x @ W, in_axes=1), [((3, 2), F32)]))
+    # operands mapped over DIFFERENT axes with identical (square) shapes: a batcher that skips the
+    # axis alignment is invisible on non-square shapes (shape error) and on equal axes
+    sq = {"add": jnp.add, "divide": jnp.divide, "maximum": jnp.maximum, "where_gt": lambda a, b: jnp.where(a > b, a, b * 2.0),
+          "power_abs": lambda a, b: jnp.power(jnp.abs(a) + 1.0, b), "arctan2": jnp.arctan2, "sub_lax": lax.sub, "less": jnp.less,
+          "clip": lambda a, b: jnp.clip(a, -jnp.abs(b), jnp.abs(b)), "minimum": jnp.minimum, "multiply": jnp.multiply, "mod": jnp.mod}
+    sq = {k: late(v) for k, v in sq.items()}
+    for nm, f in sq.items():
+        for axes in ((0, 1), (1, 0)):
+            reg("A7", f"vmap_in_axes_{axes[0]}_{axes[1]}_square/{nm}", functools.partial(P, jax.vmap(f, in_axes=axes), [((3, 3), F32), ((3, 3), F32)]), tier="quick" if nm in ("add", "divide", "maximum", "where_gt", "less", "clip") else "thorough")
+    reg("A7", "vmap_in_axes_0_2_cube/add", functools.partial(P, jax.vmap(late(jnp.add), in_axes=(0, 2)), [((2, 2, 2), F32), ((2, 2, 2), F32)]))
+    reg("A7", "vmap_out_axes_1_square/mul", functools.partial(P, jax.vmap(lambda a, b: a * b, in_axes=(0, 1), out_axes=1), [((3, 3), F32), ((3, 3), F32)]))
     reg("A7", "vmap_nested/sin", functools.partial(P, jax.vmap(jax.vmap(jnp.sin)), [((2, 2, 3), F32)]))
 
     # custom_jvp / custom_vjp
